@@ -37,6 +37,11 @@ raise returns the outcome together with the object state reached so far):
   falling off the end          (Yield VNone, <state>)
   self.f = e / self.f op= e    the field term is replaced (e must have the field's model type: an int-typed (Z)
                                field only takes int expressions; a val field takes anything, ints as VInt, bools as VBool)
+  x = Pattern.value(self.f), x then used as a list (len(x), x[i]):  Pattern.value returns a list as it is, so x is the
+                               list held by self.f:  match f with AL l => .. | _ => (Inexact, <state>) end  (the model
+                               covers list literals only);  len(x) = zlen l;  Pattern.value(x[i]):
+                               match py_index l i with Some a => let '(o, a') := pvalue fuel a in
+                               .. [l := update_nth (py_index_pos l i) a' l, in f as well] | None => IndexError
   x = e                        the local is bound to the term (no aliasing: list-typed values cannot be bound)
   self.f.append(e)             f := f ++ [e]          (f : list val)
   if c: A else: B              the rest of the body is translated under each branch
@@ -46,7 +51,8 @@ raise returns the outcome together with the object state reached so far):
   a + b, a - b, ... pow(a, b), a < b (as a value)      both ints (Z): exact integer +, -, *; otherwise
                                match bop O a b with Yield x => .. | o => (o, <state>) end   (ints enter as VInt)
   abs(x), int(x)               py_abs, py_int (outcome val)
-  len(self.f)                  zlen f (f : list val);   self.f[i] (f : list val, i : Z): py_index f i, None -> IndexError
+  len(self.f)                  zlen f (f : list val);   self.f[i] (f : list val, i : Z): py_index f i, None -> IndexError;
+                               i a value: int_of i (ints and bools), anything else -> TypeError
   sys.maxsize                  MAXSIZE (Val.v; gen_tables_pat.py checks the interpreter's value)
   conditions:  x is None / is not None -> is_none;  ==, != -> py_eq (total);  <, <=, >, >= on ints -> Z comparisons,
                on values -> omap truthy (bop O a b) (can raise);  a value as a condition -> truthy;  not / and / or
@@ -101,7 +107,8 @@ for _c in ["PConstant", "PAbs", "PInt", "PAnd", "PRef"] + list(BINOPS):
 for _c in ["PSeries", "PRange", "PGeom", "PImpulse", "PCounter", "PStutter", "PPad", "PPadToMultiple", "PLoop",
            "PCollapse", "PNoRepeats", "PChanged", "PDiff", "PSkipIf", "PWrap"]:
     REQUIRED |= {(_c, "next"), (_c, "reset"), (_c, "init")}
-REQUIRED |= {("PReverse", "next")}
+REQUIRED |= {("PReverse", "next"), ("PSequence", "next"), ("PSequence", "reset")}
+REQUIRED |= {("PSubsequence", m) for m in ("next", "reset", "init")}
 
 COQ_RESERVED = {"end", "in", "let", "fun", "match", "with", "if", "then", "else", "return", "as", "at", "fix", "forall",
                 "exists", "Type", "Prop", "Set", "using", "where", "for", "cofix"}
@@ -204,6 +211,10 @@ class Method:
         self.forks = 0
         self.local_names = {n.id for n in ast.walk(fn) if isinstance(n, ast.Name) and isinstance(n.ctx, ast.Store)}
         self.local_names |= {a.arg for a in fn.args.args}
+        # locals used as a list (len(x), x[i]): when bound by Pattern.value(self.f) they ARE the list held by self.f
+        self.listlike = {n.value.id for n in ast.walk(fn) if isinstance(n, ast.Subscript) and isinstance(n.value, ast.Name)}
+        self.listlike |= {n.args[0].id for n in ast.walk(fn) if isinstance(n, ast.Call) and isinstance(n.func, ast.Name)
+                          and n.func.id == "len" and len(n.args) == 1 and isinstance(n.args[0], ast.Name)}
 
     # -- names ---------------------------------------------------------------------------------
     def fresh(self, base):
@@ -300,6 +311,35 @@ class Method:
             raise Reject("next() in reset / __init__")
         return "(let '(%s, %s) := %s %s %s in obind %s (fun %s => %s))" % (o, f2, fnname, env.fuel, t, o, x, k("val", x, env2))
 
+    def bind_list(self, name, attr, env, cont):
+        """x = Pattern.value(self.f) where x is then used as a list: Pattern.value returns a list as it is, so x is the
+        list object held by self.f (model: f = AL l; anything else is outside the model: Inexact)"""
+        f = self.field(attr)
+        ty, t = env.fields[f]
+        if ty != "arg" or t is None:
+            raise Reject("Pattern.value(self.%s) used as a list, but the model types the attribute %s" % (attr, ty))
+        l = self.fresh("l_" + f)
+        env2 = env.set_field(f, "arg", "(AL %s)" % l).set_local(name, "alist:" + f, l)
+        return "(match %s with AL %s => %s | _ => %s end)" % (t, l, cont(env2), self.r_exc(env, "Inexact"))
+
+    def element_call(self, sub, env, ctx, k, base):
+        """Pattern.value(x[i]), x the list held by self.f: one call on the element, whose new state goes back into the list"""
+        name = sub.value.id
+        ty, l = env.locals.get(name, ("", None))
+        if not ty.startswith("alist:") or self.mode != "next" or ctx.on_stop:
+            raise Reject("subscript of %s, which is not a list held by an attribute" % name)
+        f = ty.split(":", 1)[1]
+
+        def k1(ti, i, env1):
+            if ti != "Z":
+                raise Reject("index of type %s: %s" % (ti, ast.unparse(sub)))
+            a, o, a2, x = self.fresh("item"), self.fresh("o"), self.fresh("item"), self.fresh(base)
+            l2 = "(update_nth (py_index_pos %s %s) %s %s)" % (l, i, a2, l)
+            env2 = env1.set_field(f, "arg", "(AL %s)" % l2).set_local(name, ty, l2)
+            return ("(match py_index %s %s with Some %s => (let '(%s, %s) := pvalue %s %s in match %s with Yield %s => %s | _ => (%s, %s) end) | None => %s end)"
+                    % (l, i, a, o, a2, env1.fuel, a, o, x, k("val", x, env2), o, self.st(env2), self.r_exc(env1, "Raise IndexError")))
+        return self.ev(sub.slice, env, ctx, k1)
+
     def ev(self, n, env, ctx, k, base="x", tail=None):
         """tail: optional function (oterm, env) -> result, used instead of k when the expression is ONE application of
         a primitive that returns an outcome val"""
@@ -368,9 +408,14 @@ class Method:
                 raise Reject("subscript of self.%s, which the model types %s" % (n.value.attr, ty))
 
             def k1(ti, i, env1):
+                x = self.fresh(base)
+                if ti == "val":
+                    # a list index must be an int (bool included): anything else is a TypeError
+                    z = self.fresh("i")
+                    return "(match int_of %s with Some %s => (match py_index %s %s with Some %s => %s | None => %s end) | None => %s end)" % (
+                        i, z, env1.fields[f][1], z, x, k("val", x, env1), self.r_exc(env1, "Raise IndexError"), self.r_exc(env1, "Raise TypeError"))
                 if ti != "Z":
                     raise Reject("index of type %s: %s" % (ti, ast.unparse(n)))
-                x = self.fresh(base)
                 return "(match py_index %s %s with Some %s => %s | None => %s end)" % (
                     env1.fields[f][1], i, x, k("val", x, env1), self.r_exc(env1, "Raise IndexError"))
             return self.ev(n.slice, env, ctx, k1)
@@ -378,6 +423,12 @@ class Method:
             fn = n.func
             if is_static(fn, "Pattern", "value") and "Pattern" not in self.local_names and len(n.args) == 1 and is_self_attr(n.args[0]):
                 return self.child_call("pvalue", n.args[0].attr, env, ctx, k, base)
+            if (is_static(fn, "Pattern", "value") and "Pattern" not in self.local_names and len(n.args) == 1
+                    and isinstance(n.args[0], ast.Subscript) and isinstance(n.args[0].value, ast.Name)):
+                return self.element_call(n.args[0], env, ctx, k, base)
+            if (isinstance(fn, ast.Name) and fn.id == "len" and "len" not in self.local_names and len(n.args) == 1
+                    and isinstance(n.args[0], ast.Name) and env.locals.get(n.args[0].id, ("",))[0].startswith("alist:")):
+                return k("Z", "(zlen %s)" % env.locals[n.args[0].id][1], env)
             if isinstance(fn, ast.Name) and fn.id in BUILTINS and fn.id in self.local_names:
                 raise Reject("the builtin %s is shadowed by a local of the method and then called" % fn.id)
             if isinstance(fn, ast.Name) and fn.id == "next" and len(n.args) == 1 and is_self_attr(n.args[0]):
@@ -525,6 +576,10 @@ class Method:
                     raise Reject("attribute self.%s (not in the model) is assigned a non-constant" % tg.attr)
                 return cont(env)
             base = tg.id if isinstance(tg, ast.Name) else (tg.attr if is_self_attr(tg) else "x")
+            v = st.value
+            if (isinstance(tg, ast.Name) and tg.id in self.listlike and self.mode == "next" and isinstance(v, ast.Call) and not v.keywords
+                    and is_static(v.func, "Pattern", "value") and "Pattern" not in self.local_names and len(v.args) == 1 and is_self_attr(v.args[0])):
+                return self.bind_list(tg.id, v.args[0].attr, env, cont)
             return self.ev(st.value, env, ctx, lambda ty, t, env1: cont(self.assign(tg, ty, t, env1)), base="v_" + base)
         if isinstance(st, ast.AugAssign) and type(st.op) in PY_BINOP and (isinstance(st.target, ast.Name) or is_self_attr(st.target)):
             load = ast.copy_location(ast.Name(st.target.id, ast.Load()), st.target) if isinstance(st.target, ast.Name) else \
@@ -624,6 +679,8 @@ class Method:
             if n in rebound and ty in ("Z", "bool"):
                 env.locals[n] = ("val", self.to_val(ty, t))
         fparams = [(f, ty, "self_" + f) for (f, ty) in self.k.fields]
+        if any(env.locals[n][0].startswith("alist:") for n in env.locals):
+            raise Reject("a loop while a local holds the list of an attribute")
         lparams = [(n, env.locals[n][0], "v_" + re.sub(r"\W", "_", n)) for n in env.locals]
         env0 = Env({f: (ty, p) for (f, ty, p) in fparams}, {n: (ty, p) for (n, ty, p) in lparams}, "fuel")
         n1 = "n'"
